@@ -27,7 +27,8 @@ def limitOfEp (ep : Endpoint) (s : String) : Option (Option Nat) :=
   else if s = "-" then some (effectiveLimit c ep (some (.assumed .dflt none)))
   else
     let optOf (x : String) : Option (Option Nat) := if x = "-" then some none else x.toNat?.map some
-    match s.splitOn "," with
+    -- (an optional 4th element, the server's outbound queue capacity, is not part of the model)
+    match (s.splitOn ",").take 3 with
     | [a, fr, ms] =>
       -- `N,F,M`: default().with_max_incoming_frame_size(F).with_max_incoming_message_size(M).with_assumed…(N)
       match optOf a, optOf fr, optOf ms with
